@@ -286,18 +286,29 @@ def _regions(ky, kx, neg_pairs_term):
     return out
 
 
-def _neg_overlap_term(mask, K, s):
-    """z3 term: some noise-weighted PSF overlap W[i,j] is negative (None if it cannot be)"""
+def _neg_overlap_term(mask, K, s, ctx=None):
+    """z3 term: some noise-weighted PSF overlap W[i,j] (i != j) is negative (None if it cannot be).
+    With ctx: additionally assume that no symbolic overlap between two different pixels vanishes exactly (generic-overlap assumption:
+    the value-dependent branch `noise_value > 0` / `!= 0` then never takes its measure-zero equality arm, on which nlsat is very slow)"""
     W = wtilde_reference(mask, K, s)
     ts = []
     n = W.shape[0]
+    conc_neg = False
     for i in range(n):
         for j in range(i + 1, n):
             w = W[i, j]
             if V.is_sym(w):
-                ts.append(V.to_real_term(w) < 0)
+                t = z3.simplify(V.to_real_term(w))
+                if z3.is_rational_value(t):
+                    conc_neg = conc_neg or t.numerator_as_long() < 0
+                    continue
+                ts.append(t < 0)
+                if ctx is not None:
+                    ctx.assume(t != 0)
             elif float(w) < 0:
-                return z3.BoolVal(True)
+                conc_neg = True
+    if conc_neg:
+        return z3.BoolVal(True)
     return z3.Or(*ts) if ts else None
 
 
@@ -310,6 +321,9 @@ def dyadic_kernel(ky, kx, signed=True):
         for b in range(kx):
             v = vals[(a * 5 + b * 3 + a * b) % len(vals)]
             K[a, b] = v if signed else abs(v)
+    if signed == "zeros":              # signed kernel with exact zeros in the corners and one zero edge entry: some overlaps vanish exactly
+        for (a, b) in ((0, 0), (0, kx - 1), (ky - 1, 0), (ky - 1, kx - 1), (0, kx // 2)):
+            K[a, b] = 0.0
     return K
 
 
@@ -370,7 +384,7 @@ def case_wtilde(ctx, pattern, ky, kx, mode, extra=0, signed=True, nsym=None, ksy
     ctx.set_case(mask_rows=["".join("#" if m else "." for m in row) for row in mask])
     inputs = _inputs_for(ctx, mode, mask, ky, kx, signed, nsym, ksym)
     n = len(positions(mask))
-    neg = _neg_overlap_term(mask, _obj(inputs["kernel"], (ky, kx)), _obj(inputs["noise"]).reshape(-1)[:n])
+    neg = _neg_overlap_term(mask, _obj(inputs["kernel"], (ky, kx)), _obj(inputs["noise"]).reshape(-1)[:n], ctx)
     reg_f = _regions(ky, kx, neg)
     reg_d = _regions(ky, kx, None)
     known = {}
@@ -851,7 +865,7 @@ def case_inversion(ctx, pattern, ky, kx, specs, mode, extra=0, signed=True, solv
     inputs = _inputs_for(ctx, mode, mask, ky, kx, signed, nsym, ksym)
     n = len(positions(mask))
     inputs["recon"] = V.real_array("r", (_total_params(mask, specs),))
-    neg = _neg_overlap_term(mask, _obj(inputs["kernel"], (ky, kx)), _obj(inputs["noise"]).reshape(-1)[:n])
+    neg = _neg_overlap_term(mask, _obj(inputs["kernel"], (ky, kx)), _obj(inputs["noise"]).reshape(-1)[:n], ctx)
     reg_f = _regions(ky, kx, neg)
     reg_d = _regions(ky, kx, None)
 
@@ -912,6 +926,8 @@ def cases(tier):
     for pat in ("cross5", "ring8", "block9") + (() if q else ("T6",)):
         out.append((W, {"pattern": pat, "ky": 3, "kx": 3, "mode": "data"}))
     out.append((W, {"pattern": "cross5", "ky": 5, "kx": 5, "mode": "data"}))
+    out.append((W, {"pattern": "diag3", "ky": 3, "kx": 3, "mode": "data", "signed": "zeros"}))
+    out.append((W, {"pattern": "zig4", "ky": 3, "kx": 3, "mode": "noise", "signed": "zeros", "nsym": 2}))
     for (ky, kx) in nonsq:
         out.append((W, {"pattern": "all:2x2", "ky": ky, "kx": kx, "mode": "data"}))
         out.append((W, {"pattern": "cross5", "ky": ky, "kx": kx, "mode": "data", "extra": 1}))
